@@ -362,6 +362,7 @@ type loopHead struct {
 	hasVar   bool
 	spec     *LoopSpec
 	preState *State
+	frameHps []string // heaps under the automatic frame invariant
 }
 
 // enterLoop checks the invariant on entry, havocs what the loop modifies and
@@ -375,6 +376,8 @@ func (fr *Frame) enterLoop(l *loop, in *State, heads map[*ssa.BasicBlock]*loopHe
 	h := &loopHead{l: l, spec: ls, preState: in}
 	heads[l.header] = h
 	name := fmt.Sprintf("%s/loop%d", fr.path, l.ordinal)
+	// the ghost logs the loop writes exist (empty) before it is entered
+	fr.precreateGhosts(l, in)
 	// establishment
 	if ls != nil {
 		for i, inv := range ls.Invariants {
@@ -444,12 +447,29 @@ func (fr *Frame) enterLoop(l *loop, in *State, heads map[*ssa.BasicBlock]*loopHe
 	for _, hn := range sortedKeys(mods.heaps) {
 		so := mods.heaps[hn]
 		fx.heapSorts[hn] = so
+		// automatic frame invariant: the loop keeps the function's modifies
+		// clause (established here, assumed below, re-proved at back edges)
+		if fx.frame != nil {
+			if cur, ok := in.heaps[hn]; ok {
+				if c, skip := fx.frameCond(hn, cur, in.alloc, false); !skip {
+					fx.oblige("frame", fmt.Sprintf("%s/inv_established/auto_frame/%s", name, sanitize(hn)), in, c, l.header.Instrs[0].Pos(), "loop keeps the modifies clause")
+				}
+			}
+		}
 		st.heaps[hn] = fx.decls.Fresh("hv", so)
 	}
 	if mods.allocates {
 		na := fx.decls.Fresh("alloc", sInt)
 		fx.assume(st.guard, le(st.alloc, na))
 		st.alloc = na
+	}
+	if fx.frame != nil {
+		for _, hn := range sortedKeys(mods.heaps) {
+			if c, skip := fx.frameCond(hn, st.heaps[hn], st.alloc, true); !skip {
+				fx.assume(st.guard, c)
+				h.frameHps = append(h.frameHps, hn)
+			}
+		}
 	}
 	// references held in havocked cells were allocated earlier
 	for _, a := range mods.allocs {
@@ -527,6 +547,13 @@ func (fr *Frame) backEdge(h *loopHead, st *State, pos token.Pos) {
 		if c := fr.cells[h.rangeIdx.cell]; c != nil {
 			if v, ok := st.cells[c]; ok {
 				fx.oblige("invariant", name+"/inv_preserved/auto_rangeindex", st, and(le("(- 1)", v.t()), lt(v.t(), fr.boundTerm(h.rangeIdx))), pos, "-1 <= rangeindex < bound")
+			}
+		}
+	}
+	for _, hn := range h.frameHps {
+		if cur, ok := st.heaps[hn]; ok {
+			if c, skip := fx.frameCond(hn, cur, st.alloc, false); !skip {
+				fx.oblige("frame", fmt.Sprintf("%s/inv_preserved/auto_frame/%s", name, sanitize(hn)), st, c, pos, "loop keeps the modifies clause")
 			}
 		}
 	}
